@@ -8,6 +8,7 @@ Open Scope string_scope.
 
 Inductive mp_disposition :=
 | MFinding (cls : string)              (* the model reproduces a listed finding of findings.d/C12.txt *)
+| MFindings (cls : list string)        (* one producer shared by several finding classes (a helper used by several modelled methods) *)
 | MFixed (cls : string)                (* repaired in /repo: the producer is switched off by a generated flag / kept for the record *)
 | MDead (theorem : string)             (* the producer cannot fire: the named theorem of Props/C12.v (or C12P.v) proves it, possibly under the stated guard *)
 | MOutsideBuild (why : string).        (* not krusty.Run / the YAML readers (other commands of the CLI) *)
@@ -18,6 +19,10 @@ Definition model_panic_map : list ((string * string * nat) * mp_disposition) := 
   (("Fs/DiskFs.v", "d_cleaned_abs", 0), MDead "C12_disk_cleaned_abs_partial (well-formed tree with a directory root)");
   (("Fs/DiskFs.v", "d_cleaned_abs", 1), MDead "C12_disk_cleaned_abs_partial (well-formed tree with a directory root)");
   (("Fs/DiskFs.v", "d_cleaned_abs", 2), MDead "C12_disk_cleaned_abs_partial (well-formed tree with a directory root)");
+  (("Res/BuildAnnot.v", "panic_on_err", 0),
+     MFindings ["panic:api/resource.(*Resource).appendCsvAnnotation:explicit-wrong-node-kind";
+                "panic:api/resource.(*Resource).enable:explicit-wrong-node-kind";
+                "panic:api/resource.(*Resource).RemoveBuildAnnotations:explicit-wrong-node-kind"]);
   (("Res/Image.v", "is_matched", 0), MFixed "panic:api/internal/image.IsImageMatched:nil-deref");
   (("Res/NameRef.v", "set_string_scalar", 0),
      MDead "C12_total_core_nameref_transform (every candidate has a non-empty name: GetValidatedMetadata at load)");
@@ -39,13 +44,16 @@ Definition mp_lookup (k : string * string * nat) : option mp_disposition :=
   match find (fun e => key_eqb (fst e) k) model_panic_map with Some e => Some (snd e) | None => None end.
 
 Definition mp_text_nonempty (d : mp_disposition) : bool :=
-  match d with MFinding s | MFixed s | MDead s | MOutsideBuild s => negb (String.eqb s "") end.
+  match d with
+  | MFinding s | MFixed s | MDead s | MOutsideBuild s => negb (String.eqb s "")
+  | MFindings l => match l with [] => false | _ => true end
+  end.
 
 Definition mp_accounted (k : string * string * nat) : bool :=
   match mp_lookup k with Some d => mp_text_nonempty d | None => false end.
 
 Definition mp_finding_classes : list string :=
-  flat_map (fun e => match snd e with MFinding c => [c] | _ => [] end) model_panic_map.
+  flat_map (fun e => match snd e with MFinding c => [c] | MFindings l => l | _ => [] end) model_panic_map.
 Definition mp_fixed_classes : list string :=
   flat_map (fun e => match snd e with MFixed c => [c] | _ => [] end) model_panic_map.
 (* entries whose producer no longer exists. An MFixed entry may outlive its producer: the owner of the
